@@ -56,10 +56,14 @@ struct ModelStream {
     end: Option<usize>,
     last_ts: u32,
     active: bool,
+    /// highest end of any accepted fragment, empty ones included (an empty fragment at x with
+    /// more-fragments set still announces that the datagram reaches x)
+    seen_max: usize,
 }
 
 impl ModelStream {
     fn add(&mut self, s: usize, e: usize) {
+        self.seen_max = self.seen_max.max(e);
         if s == e {
             // an empty range still creates state in the pool; nothing to merge
             return;
@@ -86,7 +90,7 @@ impl ModelStream {
         }
     }
     fn max_end(&self) -> usize {
-        self.ranges.iter().map(|r| r.1).max().unwrap_or(0)
+        self.ranges.iter().map(|r| r.1).max().unwrap_or(0).max(self.seen_max)
     }
 }
 
@@ -346,6 +350,7 @@ impl C11 {
                     st.active = true;
                     st.ranges.clear();
                     st.end = None;
+                    st.seen_max = 0;
                     w.start_stream();
                     let st = w.model.get_mut(id).unwrap();
                     st.add(off, end);
@@ -488,8 +493,22 @@ impl C11 {
                     cuts.insert(1, c);
                 }
             }
+            // an empty final fragment (carries only the end) where the length allows it
+            let empty_final = total % 8 == 0 && rng.chance(1, 4);
             for i in 0..cuts.len() - 1 {
-                queue.push((si, cuts[i], cuts[i + 1] - cuts[i], i + 2 < cuts.len()));
+                queue.push((si, cuts[i], cuts[i + 1] - cuts[i], empty_final || i + 2 < cuts.len()));
+            }
+            if empty_final {
+                queue.push((si, total, 0, false));
+                rep.count("datagrams.with_empty_final_fragment");
+            }
+            // empty fragments inside the datagram
+            if rng.chance(1, 8) {
+                let a = 8 * rng.below((total / 8 + 1) as u64) as usize;
+                if a > 0 {
+                    queue.push((si, a, 0, true));
+                    rep.count("fragments.empty_inner");
+                }
             }
             // consistent overlaps and duplicates
             let extra = rng.below(3);
